@@ -93,6 +93,7 @@ fn dispatch(group: &str, case: &Value, rep: &mut util::Report, rng: &mut util::R
         "validate" => training::replay_validate(case, rep, rng),
         "net" => netcase::replay_net(case, rep),
         "flow" => netcase::replay_flow(case, rep),
+        "tying" => netcase::replay_tying(case, rep, rng),
         "random" => random::replay_random(case, rep),
         "optimizer" => terms::replay_optimizer(case, rep, rng),
         "objective" => terms::replay_objective(case, rep, rng),
